@@ -1,7 +1,6 @@
 SPECIFICATION Spec
-CONSTANTS MaxTok = 6 MaxDepth = 3
-  Leaves <- LeavesCore
-  RootKinds <- SeqRoots
+CONSTANTS MaxDepth = 3
+  Families <- FamCov
   StoreByCopy = TRUE
   TailKeepsSets = TRUE
 INVARIANT SeenIsExpected
